@@ -79,7 +79,7 @@ def HuffTab.decodeAux (t : HuffTab) : Nat → Nat → Nat → Nat → Nat → Bi
   | 0, _, _, _, _, _ => .invalid
   | fuel+1, len, code, first, index, bits =>
     match bits with
-    | [] => .eof
+    | [] => if t.sorted.size = 0 then .invalid else .eof   -- a code without code words fails even at the end of input
     | b :: rest =>
       let code := code + (if b then 1 else 0)
       let cnt := t.count.getD len 0
